@@ -381,8 +381,18 @@ func VerifC17Equivalence() {
 			if nd.Choice("cond", 2) == 1 {
 				in1.ConditionExpression, in2.ConditionExpression = aws1.String("attribute_exists(p)"), aws2.String("attribute_exists(p)")
 			}
-			o1, e1 := c1.UpdateItem(in1)
-			o2, e2 := c2.UpdateItem(ctx, in2)
+			// a request that is refused for its own sake is refused alike (also while a failure is emulated: the
+			// two clients must agree on which refusal comes first)
+			switch nd.Choice("flaw", 3) {
+			case 1:
+				in1.ExpressionAttributeNames, in2.ExpressionAttributeNames = map[string]*string{"#unused": aws1.String("v")}, map[string]string{"#unused": "v"}
+			case 2:
+				in1.UpdateExpression, in2.UpdateExpression = aws1.String("SET v = :x,"), aws2.String("SET v = :x,")
+			}
+			var o1 *ddb1.UpdateItemOutput
+			var o2 *ddb2.UpdateItemOutput
+			e1 := catch(func() error { var e error; o1, e = c1.UpdateItem(in1); return e })
+			e2 := catch(func() error { var e error; o2, e = c2.UpdateItem(ctx, in2); return e })
 			err1, err2 = e1, e2
 			if e1 == nil && e2 == nil {
 				nd.Assert(sameItem(o1.Attributes, o2.Attributes), "C17-update-same-attributes")
@@ -405,8 +415,13 @@ func VerifC17Equivalence() {
 			}
 			id = "C17-delete"
 		case 4:
-			in1 := &ddb1.QueryInput{TableName: aws1.String(tbl), KeyConditionExpression: aws1.String("p = :p"), ExpressionAttributeValues: item1{":p": k1["p"]}}
-			in2 := &ddb2.QueryInput{TableName: aws2.String(tbl), KeyConditionExpression: aws2.String("p = :p"), ExpressionAttributeValues: item2{":p": k2["p"]}}
+			// the key condition: proper, or one of three kinds both clients must refuse alike - on an empty table too
+			kc := []string{"p = :p", "p = :p", "p <> :p", "v = :p", "p = :p AND"}[nd.Choice("keycond", 5)]
+			in1 := &ddb1.QueryInput{TableName: aws1.String(tbl), KeyConditionExpression: aws1.String(kc), ExpressionAttributeValues: item1{":p": k1["p"]}}
+			in2 := &ddb2.QueryInput{TableName: aws2.String(tbl), KeyConditionExpression: aws2.String(kc), ExpressionAttributeValues: item2{":p": k2["p"]}}
+			if nd.Choice("bad-filter", 2) == 1 {
+				in1.FilterExpression, in2.FilterExpression = aws1.String("v = = :p"), aws2.String("v = = :p")
+			}
 			if nd.Choice("limit", 2) == 1 {
 				in1.Limit, in2.Limit = aws1.Int64(1), aws2.Int32(1)
 			}
